@@ -347,6 +347,11 @@ func c15RunCase(dir string, stub *c15Stub, k c15Case) (class string, alloc uint6
 			db, err := wt.Open(p)
 			if err != nil {
 				class = "err"
+				if !vrt.ProbeLockFree(p) {
+					// the rejected file is still locked by the descriptor the failed Open left behind: the next Open of
+					// this path would wait for ever
+					class = "err-and-the-file-is-left-locked"
+				}
 				return
 			}
 			defer db.Close()
@@ -367,6 +372,17 @@ func c15RunCase(dir string, stub *c15Stub, k c15Case) (class string, alloc uint6
 				}
 			}
 			db.UpdatePointForArchive(-1, now, 1, now)
+			// single updates whose age is judged by the header's (possibly damaged) maximum-retention field
+			if al := db.ArchiveInfoList(); n > 0 {
+				last := int64(al[n-1].SecondsPerPoint()) * int64(al[n-1].NumberOfPoints())
+				mr := int64(db.MaxRetention())
+				for _, age := range []int64{last - 1, last, last + 1, mr - 1, mr, mr / 2, 2*last + 3} {
+					if age > 0 && age < int64(now) {
+						db.UpdatePointForArchive(-1, now-wt.Timestamp(age), 2, now)
+						db.UpdatePointsForArchive([]wt.Point{{Time: now - wt.Timestamp(age), Value: 2}}, -1, now)
+					}
+				}
+			}
 			db.UpdatePointsForArchive([]wt.Point{{Time: now, Value: 1}, {Time: now - 1, Value: 2}}, -1, now)
 			var dense []wt.Point
 			for d := 0; d < 20; d++ {
@@ -444,6 +460,9 @@ func c15Child(args []string) {
 func c15Judge(k c15Case, class string, alloc uint64, inLen int) (sig, desc string) {
 	if strings.HasPrefix(class, "panic:") {
 		return "C15/" + k.Target + "/panic/" + strings.TrimPrefix(class, "panic:"), fmt.Sprintf("%s on %d bytes %s: %s", k.Target, inLen, clip(k.Data, 120), class)
+	}
+	if class == "err-and-the-file-is-left-locked" {
+		return "C15/open/hang/rejected-file-left-locked", fmt.Sprintf("Open rejected %d bytes %s but the file is still locked through the descriptor it opened: a later Open of the same path never returns", inLen, clip(k.Data, 120))
 	}
 	bound := uint64(64<<10 + 64*inLen)
 	if strings.HasPrefix(k.Target, "remote") {
@@ -544,7 +563,7 @@ func runC15(c *fw.Ctx) {
 						c.Inconclusive("stub HTTP server could not be started in the sandbox child")
 						continue
 					}
-					if strings.HasPrefix(class, "panic:") || alloc > 64<<10 {
+					if strings.HasPrefix(class, "panic:") || alloc > 64<<10 || class == "err-and-the-file-is-left-locked" {
 						k := lookup(i)
 						if sig, desc := c15Judge(k, class, alloc, inLen); sig != "" {
 							c.Violate(sig, desc, inLen, k, "")
